@@ -39,7 +39,7 @@ CU = 'utils.courier_utils'
 
 
 def run(ctx: Ctx):
-  for r in (r1, r2, r3, r4, r5, r6, r7, r8, r11, r12, r13, r14, r18, r19, r22, r23, r24, r25, r26):
+  for r in (r1, r2, r3, r4, r5, r6, r7, r8, r11, r12, r13, r14, r18, r19, r22, r23, r24, r25, r26, r28):
     ctx.guard(r)
   from mlmverif.props import c15
   from mlmverif.props import c05
@@ -1250,12 +1250,48 @@ def r26(ctx: Ctx):
   ctx.floor(rule, 1, n)
 
 
+def r28(ctx: Ctx):
+  rule = 'R-C06-28'
+  ctx.rule(rule, '"every shard\'s aggregation state is merged exactly once": a shard attempt the pool has given up on (timed out, its'
+           ' worker pronounced dead) is CANCELLED in the same sweep in which it is re-queued — the loop of WorkerPool.iterate'
+           ' that calls `state.cancel()` on the timed-out tasks runs unconditionally, it is not nested under a test of the'
+           ' retry counter. An abandoned attempt that is not cancelled keeps running: when its worker answers after all, it'
+           ' delivers the shard\'s batches and state a second time next to the retry')
+  fi = ctx.repo.func(CW, 'WorkerPool.iterate')
+  n = 0
+  pm = parent_map(fi.node)
+  for lp in ast.walk(fi.node):
+    if not (isinstance(lp, ast.For) and any(isinstance(c, ast.Call) and isinstance(c.func, ast.Attribute) and c.func.attr == 'cancel'
+                                           for c in ast.walk(lp))):
+      continue
+    if not ('timeout' in unparse(lp.iter)):
+      continue
+    n += 1
+    guard = None
+    q = lp
+    while q in pm and not isinstance(pm[q], (ast.While, ast.FunctionDef, ast.AsyncFunctionDef)):
+      q = pm[q]
+      if isinstance(q, ast.If) and any(isinstance(y, ast.Name) and ('threshold' in y.id or 'cnt' in y.id or 'retr' in y.id) for y in ast.walk(q.test)):
+        guard = q
+    what = 'WorkerPool.iterate: timed-out attempts are cancelled in every sweep'
+    if guard is not None:
+      ctx.fail(rule, fi, what,
+               f'the cancelling loop runs only under `{unparse(guard.test)}`: while the budget lasts, an abandoned attempt keeps its'
+               ' coroutine — if the stalled worker answers later, the shard\'s state reaches the result queue twice', node=lp)
+    else:
+      ctx.ok(rule, fi, what, lp)
+  ctx.floor(rule, 1, n)
+
+
 from mlmverif.selfcheck import B, OK  # noqa: E402
 
 _W = 'chainables/courier_worker.py'
 _O = 'chainables/orchestrate.py'
 _U = 'utils/courier_utils.py'
 VARIANTS = [
+    B('timed-out-attempts-cancelled-only-when-giving-up', 'chainables/courier_worker.py',
+      "        # Preemptively cancel task from the timeout workers.\n        for task in timeout_tasks:\n          if (state := task.state) is not None:\n            state.cancel()\n", "", 'R-C06-28',
+      extra=(('chainables/courier_worker.py', "          if timeout_cnt > retry_threshold:\n            break", "          if timeout_cnt > retry_threshold:\n            for task in timeout_tasks:\n              if (state := task.state) is not None:\n                state.cancel()\n            break"),)),
     B('final-drain-of-the-output-queue-removed', 'chainables/courier_worker.py',
       "      while not output_queue.empty():\n        batch_cnt += 1\n        yield output_queue.get()\n      loop_thread.join()", "      loop_thread.join()", 'R-C06-27'),
     B('submit-keeps-the-worker-of-a-requeued-task', 'utils/courier_utils.py',
